@@ -277,9 +277,9 @@ def nonzeros(
         nidx = np.random.choice(nnz, size=samples, replace=with_replacement)
     else:
         raise ValueError("Tensor doesn't have enough nonzeros to sample")
-    subs = data.subs[nidx, :]
+    subs = data.subs[nidx, :].reshape((len(nidx), data.ndims))
     vals = data.vals[nidx]
-    return subs, vals.squeeze(1)
+    return subs, vals.reshape((len(nidx),))
 
 
 def zeros(
